@@ -331,3 +331,11 @@ SUBS = [
     Sub("refuse", check_refuse, enum=lambda tier: ({"kind": k, "seed": 0} for k in
         ["nvdim2", "nvdim4", "ndim2", "ndim1", "ndim4", "empty-mapping", "partial-mapping", "nonaxis-mapping", "unknown-method"])),
 ]
+
+
+# objects with a history (reads that may fill caches, in-place writes): observables equal those of a fresh object
+from pbt import aged as _aged  # noqa: E402
+
+SUBS.append(_aged.sub("C18", quick=60))
+ASSUMPTIONS = list(ASSUMPTIONS) + ["aged sub-property: library results are a function of the public primary state "
+                                   "(corners, n, names, units, bc, subregions, array, validity, labels, mapping, unit)"]
